@@ -36,7 +36,9 @@ def judgeAliasHist (d : DictRt) (a : Bytes) (nlater : Nat) (mode : String) (impl
   let implOut := " ".intercalate impl
   -- with views into a pooled buffer the outcome depends on sync.Pool's choice: the model admits both
   let model := if safe then " ".intercalate ("w:same" :: List.replicate nlater "same") else implOut
-  let fails := (if impl.any (· = "changed") then ["C06:retained-message-changed-after-later-reads"] else []) ++
+  -- (C01: a decoded message re-encodes to the bytes it was read from - also after other messages
+  -- have been read; a retained message that changed no longer does)
+  let fails := (if impl.any (· = "changed") then ["C06:retained-message-changed-after-later-reads", "C01:decoded-message-no-longer-re-encodes-to-its-bytes-after-later-reads"] else []) ++
     (if impl.any (· = "w:changed") then ["C06:retained-message-changed-by-writing-or-serialising-it"] else [])
   { model := model, fails := fails,
     tags := [s!"hist g={mode} later={nlater} views={views.length} big={decide (body.length > 1024)}"] }
